@@ -352,9 +352,12 @@ namespace xsimd
         XSIMD_INLINE batch<T, A> atan2(batch<T, A> const& self, batch<T, A> const& other, requires_arch<generic>) noexcept
         {
             using batch_type = batch<T, A>;
-            const batch_type q = abs(self / other);
+            // 0/0 and inf/inf have no quotient: atan2(+-0, +-0) is +-0 or +-pi, atan2(+-inf, +-inf) an odd multiple of pi/4
+            const batch_type q = select(self == batch_type(0.) && other == batch_type(0.), batch_type(0.),
+                                        select(isinf(self) && isinf(other), batch_type(1.), abs(self / other)));
             const batch_type z = detail::kernel_atan(q, batch_type(1.) / q);
-            return select(other > batch_type(0.), z, constants::pi<batch_type>() - z) * signnz(self);
+            // the sign bit of other, so that -0 selects the left half plane
+            return select(copysign(batch_type(1.), other) > batch_type(0.), z, constants::pi<batch_type>() - z) * signnz(self);
         }
 
         // cos
